@@ -1,6 +1,6 @@
 // Key-schedule contracts for the fixsliced AES backend: the FIPS-197 round keys decoded from the fixsliced array
 // (exactly the decoding `kf` used by the block-function contracts in verus/aes_soft.vrs: key i of lane j is
-// ShiftRows^{f(i)}(block j of inv_bitslice(rkeys[8i..8i+8])) xor (i > 0 ? 0x63.. : 0), f(i) = i mod 4 for 0 < i < Nr,
+// ShiftRows^{f(i)}(block j of inv_bitslice(rkeys[8i..8i+8])) xor (i > 0 ? 0x63.. : 0), f(i) = i mod 4 (i mod 2 under --cfg aes_compact) for 0 < i < Nr,
 // f(0) = f(Nr) = 0) equal KeyExpansion(key) in every lane, for every key.  Bitsliced leaves are replaced by their
 // contracts (lifted specs, fixslice.rs); memshift32 / xor_columns / add_round_constant_bit / ror are inlined.
 //
@@ -13,12 +13,13 @@ use bcref::aes as fips;
 /// `kf` of verus/aes_soft.vrs, computed
 pub fn decode_key(rkeys: &[u64], nr: usize, i: usize, j: usize) -> [u8; 16] {
     let b = spec_inv_bitslice(&rkeys[8 * i..8 * i + 8]);
-    let f = if i == 0 || i == nr { 0 } else { i % 4 };
+    let f = if i == 0 || i == nr { 0 } else if cfg!(aes_compact) { i % 2 } else { i % 4 };
     let k = fips::shift_rows_k(&b[j], f);
     if i > 0 { fips::xor_block(&k, &[0x63; 16]) } else { k }
 }
 
 // @ob name=ks_aes128 props=C02,C20 tier=thorough fn=aes::soft::fixslice::aes128_key_schedule,aes::soft::fixslice::memshift32,aes::soft::fixslice::xor_columns,aes::soft::fixslice::add_round_constant_bit uses=c_bitslice,c_sub_bytes,c_sub_bytes_nots,c_shift_rows_2,c_inv_shift_rows_1,c_inv_shift_rows_3 timeout=3600
+#[cfg(not(aes_compact))]
 #[kani::proof]
 #[kani::stub(bitslice, spec_bitslice_fn)]
 #[kani::stub(sub_bytes, spec_sub_bytes)]
@@ -46,6 +47,7 @@ fn ks_aes128() {
 }
 
 // @ob name=ks_aes192 props=C02,C20 tier=thorough fn=aes::soft::fixslice::aes192_key_schedule,aes::soft::fixslice::memshift32,aes::soft::fixslice::xor_columns,aes::soft::fixslice::add_round_constant_bit uses=c_bitslice,c_sub_bytes,c_sub_bytes_nots,c_shift_rows_2,c_inv_shift_rows_1,c_inv_shift_rows_3 timeout=3600
+#[cfg(not(aes_compact))]
 #[kani::proof]
 #[kani::stub(bitslice, spec_bitslice_fn)]
 #[kani::stub(sub_bytes, spec_sub_bytes)]
@@ -73,6 +75,7 @@ fn ks_aes192() {
 }
 
 // @ob name=ks_aes256 props=C02,C20 tier=thorough fn=aes::soft::fixslice::aes256_key_schedule,aes::soft::fixslice::memshift32,aes::soft::fixslice::xor_columns,aes::soft::fixslice::add_round_constant_bit uses=c_bitslice,c_sub_bytes,c_sub_bytes_nots,c_shift_rows_2,c_inv_shift_rows_1,c_inv_shift_rows_3 timeout=3600
+#[cfg(not(aes_compact))]
 #[kani::proof]
 #[kani::stub(bitslice, spec_bitslice_fn)]
 #[kani::stub(sub_bytes, spec_sub_bytes)]
@@ -82,6 +85,90 @@ fn ks_aes192() {
 #[kani::stub(shift_rows_3, spec_shift_rows_3)]
 #[kani::unwind(62)]
 fn ks_aes256() {
+    let key: [u8; 32] = kani::any();
+    let rk = aes256_key_schedule(&key);
+    let want = fips::key_expansion::<32, 15>(&key);
+    let j: usize = kani::any();
+    kani::assume(j < 4);
+    let mut i = 0;
+    while i <= 14 {
+        let got = decode_key(&rk, 14, i, j);
+        let mut b = 0;
+        while b < 16 {
+            assert!(got[b] == want[i][b]);
+            b += 1;
+        }
+        i += 1;
+    }
+}
+
+// @ob name=ksc_aes128 props=C02,C03,C20 tier=thorough cfg=compact fn=aes::soft::fixslice::aes128_key_schedule uses=c_bitslice,c_sub_bytes,c_sub_bytes_nots,c_shift_rows_2,c_inv_shift_rows_1 timeout=3600
+#[cfg(aes_compact)]
+#[kani::proof]
+#[kani::stub(bitslice, spec_bitslice_fn)]
+#[kani::stub(sub_bytes, spec_sub_bytes)]
+#[kani::stub(sub_bytes_nots, spec_sub_bytes_nots)]
+#[kani::stub(shift_rows_2, spec_shift_rows_2)]
+#[kani::stub(shift_rows_3, spec_shift_rows_3)]
+#[kani::unwind(62)]
+fn ksc_aes128() {
+    assert!(cfg!(aes_compact));
+    let key: [u8; 16] = kani::any();
+    let rk = aes128_key_schedule(&key);
+    let want = fips::key_expansion::<16, 11>(&key);
+    let j: usize = kani::any();
+    kani::assume(j < 4);
+    let mut i = 0;
+    while i <= 10 {
+        let got = decode_key(&rk, 10, i, j);
+        let mut b = 0;
+        while b < 16 {
+            assert!(got[b] == want[i][b]);
+            b += 1;
+        }
+        i += 1;
+    }
+}
+
+// @ob name=ksc_aes192 props=C02,C03,C20 tier=thorough cfg=compact fn=aes::soft::fixslice::aes192_key_schedule uses=c_bitslice,c_sub_bytes,c_sub_bytes_nots,c_shift_rows_2,c_inv_shift_rows_1 timeout=3600
+#[cfg(aes_compact)]
+#[kani::proof]
+#[kani::stub(bitslice, spec_bitslice_fn)]
+#[kani::stub(sub_bytes, spec_sub_bytes)]
+#[kani::stub(sub_bytes_nots, spec_sub_bytes_nots)]
+#[kani::stub(shift_rows_2, spec_shift_rows_2)]
+#[kani::stub(shift_rows_3, spec_shift_rows_3)]
+#[kani::unwind(62)]
+fn ksc_aes192() {
+    assert!(cfg!(aes_compact));
+    let key: [u8; 24] = kani::any();
+    let rk = aes192_key_schedule(&key);
+    let want = fips::key_expansion::<24, 13>(&key);
+    let j: usize = kani::any();
+    kani::assume(j < 4);
+    let mut i = 0;
+    while i <= 12 {
+        let got = decode_key(&rk, 12, i, j);
+        let mut b = 0;
+        while b < 16 {
+            assert!(got[b] == want[i][b]);
+            b += 1;
+        }
+        i += 1;
+    }
+}
+
+// @ob name=ksc_aes256 props=C02,C03,C20 tier=thorough cfg=compact fn=aes::soft::fixslice::aes256_key_schedule uses=c_bitslice,c_sub_bytes,c_sub_bytes_nots,c_shift_rows_2,c_inv_shift_rows_1 timeout=3600
+#[cfg(aes_compact)]
+#[kani::proof]
+#[kani::stub(bitslice, spec_bitslice_fn)]
+#[kani::stub(sub_bytes, spec_sub_bytes)]
+#[kani::stub(sub_bytes_nots, spec_sub_bytes_nots)]
+#[kani::stub(shift_rows_2, spec_shift_rows_2)]
+#[kani::stub(shift_rows_3, spec_shift_rows_3)]
+#[kani::unwind(62)]
+fn ksc_aes256() {
+    assert!(cfg!(aes_compact));
     let key: [u8; 32] = kani::any();
     let rk = aes256_key_schedule(&key);
     let want = fips::key_expansion::<32, 15>(&key);
